@@ -231,6 +231,10 @@ for _n, _sf, _f, _dom in (("add", "view::add_t<>{}", np.add, ("any", "any")), ("
 MIXED.append(dict(name="divide", ar=2, grp="mixed", dom=("any", "nz"), ref=_cdiv, cls="exact",
                   variants=[(("i4", "f8"), B_AA), (("f4", "f8"), B_AA), (("i8", "i4"), B_AA), (("f4", "i4"), B_AA)], call="view::divide(a,b)",
                   sf="view::fun::divide{}", hdr="nmtools/array/view/ufuncs/divide.hpp", w="common", prefix="uf", params=None, note=None))
+# power with a scalar operand of another type: power_t has a dedicated branch for operands that arrive wrapped in a view
+MIXED.append(dict(name="power", ar=2, grp="mixed", dom=("pw_base", "pw_exp"), ref=np.power, cls="ulp",
+                  variants=[(("f4", "i8"), "F_AA|F_AS|F_SA"), (("f8", "i4"), "F_AA|F_AS")], call="view::power(a,b)",
+                  sf="view::power_t<>{}", hdr="nmtools/array/view/ufuncs/power.hpp", w="float64", prefix="uf", params=None, note=None))
 OPS += MIXED
 
 # ---- view operands (transpose / slice of an array) on a subset
